@@ -205,7 +205,7 @@ def run(ctx, res):
                           "`%s.%s` is accessed in %s without %s held (and no listed exception applies): unsynchronised access to pool state"
                           % (n.get("rec"), n["field"], f.name, " or ".join(row["held"])), f.loc(n))
             elif row.get("discipline") == "owner-exclusive":
-                allowed = [a for a in row["allowed"] if a["function"] == f.name and (not a.get("fields") or n["field"] in a["fields"])]
+                allowed = [a for a in row["allowed"] if f.name in heirs(ctx, a["function"], f.unit) and (not a.get("fields") or n["field"] in a["fields"])]
                 res.check(bool(allowed), "C14.R3", sig, "owner-exclusive hand-off: %s" % (allowed[0]["when"] if allowed else ""),
                           "`thread.%s` is touched in %s, which is not one of the hand-off owners (dispatcher / worker / result thread)"
                           % (n["field"], f.name), f.loc(n))
